@@ -6,7 +6,7 @@ pub mod rt;
 pub mod selftest;
 
 pub use rt::{
-  burn, choice_points, in_exec, lib_threads_alive, lib_threads_total, now, quiesce, run, settle,
+  burn, choice_points, in_exec, lib_threads_alive, lib_threads_total, now, quiesce, run, set_release_points, settle,
   sleep_ns, spawn_named, stamp, steps, switches, thread_is_lib, thread_name, tid, yield_point,
   Config, HarnessHandle, Kind, Outcome, Schedule, ThreadInfo,
 };
